@@ -160,7 +160,10 @@ func maskClass(md protoreflect.MessageDescriptor, paths []string, nilMask bool) 
 			}
 		}
 	}
-	return rep + rel
+	if rel == "disjoint" {
+		return rep + rel
+	}
+	return rel // the relation between the paths is the structure that matters
 }
 
 func firstSeg(p string) string {
